@@ -21,6 +21,7 @@
 From stdpp Require Import gmap.
 From Coq Require Import List NArith.
 From P9 Require Import Model.SessLock Proofs.SessLockProofs Proofs.SessLockProofsLin Proofs.SessLockProofsScopes Proofs.SessLockProofsTie.
+From P9 Require Import Proofs.SessLockProofsLinAll Proofs.SessLockProofsLinAll2.
 From P9 Require Import Gen.GenSessLock.
 
 (* the programs below were transcribed from the methods whose lock-protocol trace sets (over all syntactic
@@ -84,10 +85,19 @@ Proof. intros reqauth ops sched. apply progress, inv_reachable. Qed.
 Print Assumptions C14_progress.
 
 (* "the results are those of some sequential order of the operations consistent with real time".
-   FULL STATEMENT (not proved):
-     forall reqauth ops sched, all operations returned in (run sched (init reqauth ops)) ->
-       exists o, linearization reqauth (history_of_run sched) o.
-   PROVED: the checker that the harness runs on every observed concurrent history is sound - when it
+   FULL STATEMENT (not proved in general):
+     forall reqauth ops sched, [no two operations of ops allocate the same new fid] ->
+       all_done (run sched (init reqauth ops)) ->
+       exists o, linearization reqauth (history_of_run reqauth ops sched) o.
+   ([history_of_run], Proofs/SessLockProofsLinAll2.v: per operation its op, script, ghost id, invocation time =
+   index of its first atomic step, return time = index of the step after which it had returned, its result and
+   its FileSys calls in the final state.)
+   PROVED WITHOUT ANY BOUND for one class, C14_linearizable_disjoint below: operations on pairwise disjoint fid
+   sets.  Not proved: operations that share a fid (the lookup -> lock window: an operation that looked a fid up,
+   lost the race for the SFid's lock to a Clunk and then fails with "unknown fid" has its linearization point
+   at the Clunk's unbinding, not at a step of its own - a simulation with helping; the step simulation
+   [step_sim] it would be built on is proved for all client operations, not only disjoint ones).
+   PROVED for arbitrary histories: the checker that the harness runs on every observed concurrent history is sound - when it
    answers [Some o], o is a permutation of the operations, no operation that had returned before another
    was invoked is placed after it, and running the operations one at a time in that order (model
    [seq_op] = the operation's program run alone, cf. C14_seq) reproduces every return value and every
@@ -96,6 +106,42 @@ Theorem C14_linearizable_partial : forall reqauth h o,
   lin_check reqauth h = Some o -> linearization reqauth h o.
 Proof. exact lin_check_sound. Qed.
 Print Assumptions C14_linearizable_partial.
+
+(* the unbounded statement for the class "pairwise disjoint fid sets" ([disjoint_fids], a decidable test on the
+   operations: no Stop, and no fid - fid, newfid or afid, NOFID apart - is named by two of them): for ANY number
+   of such operations, ANY schedule of their atomic actions, ANY FileSys outcomes, the completed execution is
+   linearizable: there is an order that is a permutation, respects real time (no operation that had returned
+   before another took its first step is placed after it) and whose one-at-a-time run by [seq_op] from the fresh
+   session reproduces every result and every FileSys call (kind and entry identity).  The order of return is
+   such an order.  Proof: each operation stays related, up to a renaming of SFid pointers, to a replica running
+   alone (a Kripke logical relation on the programs, [prel_prog_of], and a step simulation, [step_sim]); the
+   others' steps leave its fids and pointers alone. *)
+Theorem C14_linearizable_disjoint : forall reqauth ops sched,
+  disjoint_fids (map fst ops) = true ->
+  all_done (run sched (init reqauth ops)) ->
+  exists o, linearization reqauth (history_of_run reqauth ops sched) o.
+Proof. exact linearizable_disjoint. Qed.
+Print Assumptions C14_linearizable_disjoint.
+
+(* the tool behind it, for ALL client operations (no disjointness): two states that agree up to a pointer
+   renaming R on the fids F an operation names, and in which that operation has R-related programs, take
+   related steps; the step touches nothing outside F and outside the renamed pointers *)
+Theorem C14_step_simulation : forall (F : N -> Prop) (R : prn) s s' i i' th th' s1,
+  srel F R s s' -> threads s !! i = Some th -> threads s' !! i' = Some th' -> trel F R th th' ->
+  step s i = Some s1 ->
+  exists s1' (R' : prn) th1 th1',
+    step s' i' = Some s1' /\ sub R R' /\ srel F R' s1 s1' /\
+    threads s1 = <[i := th1]> (threads s) /\ threads s1' = <[i' := th1']> (threads s') /\
+    trel F R' th1 th1' /\ frame F R R' s s1.
+Proof. exact step_sim. Qed.
+Print Assumptions C14_step_simulation.
+
+(* every client operation's program is related to itself under every renaming: the programs never inspect an
+   SFid pointer, they only pass it on *)
+Theorem C14_programs_parametric : forall reqauth o (R : prn),
+  o <> OpStop -> prel (opF o) (prog_of reqauth o) (prog_of reqauth o) R.
+Proof. exact prel_prog_of. Qed.
+Print Assumptions C14_programs_parametric.
 
 (* the strong form of "every operation returns provided the file system's calls return": from EVERY
    reachable state there is a continuation of the schedule after which every operation has returned
@@ -175,3 +221,16 @@ Proof. exact old_delref_not_linearizable. Qed.
    attach = duplicate fid, first attach then fails) has no sequential explanation *)
 Example C14_side_condition_needed : lin_check false ex_hist_double_alloc = None.
 Proof. exact double_alloc_not_linearizable. Qed.
+
+(* the class of C14_linearizable_disjoint is inhabited by executions with real overlap: five operations (an
+   attach that succeeds, one that fails in the FileSys and rolls back, an auth, a stat and a clone of unbound
+   fids) interleaved action by action; all return; attach(0) and attach(1), attach(1) and auth(5) overlap in
+   real time; the order of return is [3; 4; 0; 1; 2] *)
+Example C14_disjoint_class_inhabited :
+  disjoint_fids (map fst ex_dis_ops) = true /\
+  all_done (run ex_dis_sched (init true ex_dis_ops)) /\
+  overlapb (history_of_run true ex_dis_ops ex_dis_sched) 0 1 = true /\
+  overlapb (history_of_run true ex_dis_ops ex_dis_sched) 1 2 = true /\
+  map (fun h => r_cls (h_res h)) (history_of_run true ex_dis_ops ex_dis_sched) = [R_OK; R_FSERR; R_OK; R_UNKNOWNFID; R_UNKNOWNFID] /\
+  lin_order true ex_dis_ops ex_dis_sched = [3; 4; 0; 1; 2]%nat.
+Proof. exact ex_disjoint_in_class. Qed.
